@@ -372,6 +372,15 @@ func c05gen(c *h.Ctx, yield func(*h.Case)) {
 		"c05 exit 1", "c05 exit 1", "c05 accept 0 6", "c05 exit 2", "c05 exit 0", "c05 exit 0", "c05 exit 0", "c05 exit 0"}})
 	yield(&h.Case{Class: "script-corpus", Ops: []string{
 		"c05 accept 0 1", "c05 close 0", "c05 accept 0 2", "c05 exit 0", "c05 accept 0 3", "c05 accept 1 4", "c05 exit 1"}})
+	// a long backlog behind a handler that never returns must not hold back another instance
+	{
+		ops := []string{"c05 accept 0 1"}
+		for m := 2; m <= c.Pick(140, 400); m++ {
+			ops = append(ops, fmt.Sprintf("c05 accept 0 %d", m))
+		}
+		ops = append(ops, "c05 accept 1 1000", "c05 exit 1", "c05 accept 2 1001", "c05 exit 0", "c05 exit 0")
+		yield(&h.Case{Class: "script-backlog", Ops: ops})
+	}
 	for n := 0; n < c.Pick(120, 2000); n++ {
 		cs := &h.Case{Class: "script"}
 		m := 0
